@@ -125,6 +125,21 @@ Proof.
   apply (row_major_injective exts); assumption.
 Qed.
 
+(* row-major order is the lexicographic order of the tuples (the last index varies fastest) *)
+Lemma row_major_lex : forall exts idx1 idx2,
+  in_range exts idx1 -> in_range exts idx2 ->
+  lex_lt idx1 idx2 -> row_major exts idx1 < row_major exts idx2.
+Proof.
+  induction exts as [|n ns IH]; destruct idx1 as [|i1 is1]; destruct idx2 as [|i2 is2];
+    cbn; intros H1 H2 L; try tauto.
+  destruct H1 as [Hi1 H1]. destruct H2 as [Hi2 H2].
+  pose proof (row_major_bound ns is1 H1) as B1.
+  pose proof (row_major_bound ns is2 H2) as B2.
+  destruct L as [L|[E L]].
+  - nia.
+  - subst i2. specialize (IH is1 is2 H1 H2 L). lia.
+Qed.
+
 (* ---- object_arr_dim_mult ---------------------------------------------------------------- *)
 (* the dimension vector a correct implementation would build: (n_k, prod_{j>k} n_j) *)
 Fixpoint spec_dv (exts : list Z) : dimv :=
